@@ -227,7 +227,10 @@ fn strategy(tier: Tier) -> BoxedStrategy<Case> {
         4 => (1usize..=40).prop_map(Ctor::Width),
         1 => (1usize..=200).prop_map(Ctor::Width),
         // windows that never end within the stream: the counter must be exact
-        1 => prop_oneof![Just(Ctor::Width(1usize << 40)), Just(Ctor::Width(usize::MAX)), Just(Ctor::Epsilon(1e-9)), Just(Ctor::Epsilon(1e-15))],
+        1 => prop_oneof![Just(Ctor::Width(1usize << 62)), Just(Ctor::Width(usize::MAX)), Just(Ctor::Epsilon(1e-9)), Just(Ctor::Epsilon(1e-15))],
+        // epsilon at the edges of (0, 1) and one ulp either side of 1/k (where ceil(1/epsilon) flips)
+        1 => prop_oneof![Just(1.0f64 - f64::EPSILON / 2.0), Just(1.0 - f64::EPSILON), Just(0.9999999), Just(f64::from_bits(0.5f64.to_bits() - 1)), Just(f64::from_bits(0.5f64.to_bits() + 1))].prop_map(Ctor::Epsilon),
+        1 => (2usize..=60, -2i64..=2).prop_map(|(k, ulps)| Ctor::Epsilon(f64::from_bits(((1.0 / k as f64).to_bits() as i64 + ulps) as u64))),
     ];
     let stream = prop_oneof![
         5 => prop::collection::vec(prop_oneof![0u16..4, 0u16..30, any::<u16>()], 0..300).prop_map(Stream::Explicit),
@@ -296,7 +299,7 @@ pub fn checks() -> Vec<Box<dyn DynCheck>> {
 }
 
 pub fn run(ctx: &Ctx) {
-    ctx.set_rule("exhaustive: every stream over a 3-element alphabet up to length 10 (thorough: 13, and 4 elements up to length 10) for widths 1..=5 (6), every prefix. generated: with_epsilon(e) / with_width(w) (rarely windows that never end: width 2^40, usize::MAX, epsilon 1e-9, 1e-15) x stream family (explicit shrinkable item lists, uniform, zipf, all-distinct, boundary adversary whose occurrences sit on the first slots after each window end, blocks) x thresholds {epsilon, 2*epsilon, 0, .1, .5, 1, random}; checked at every prefix up to 400, around every window end up to 4000 and at geometric prefixes beyond. Oracle: reference Manku-Motwani lossy counter + exact counts: n(), add's return value, query(0) == reference table, no miss (true >= s*n and > eps*n), no intruder (true < (s-eps)*n), table size <= width*(H(ceil(n/width))+1). Non-trivial: the stream crosses >= 2 window ends and an element was pruned and later re-added. Distinct = (width, stream). evaluations = cases + prefixes checked.");
+    ctx.set_rule("exhaustive: every stream over a 3-element alphabet up to length 10 (thorough: 13, and 4 elements up to length 10) for widths 1..=5 (6), every prefix. generated: with_epsilon(e) / with_width(w) (rarely epsilon next to 1, next to 0.5 and within 2 ulps of 1/k; rarely windows that never end: width 2^62, usize::MAX, epsilon 1e-9, 1e-15) x stream family (explicit shrinkable item lists, uniform, zipf, all-distinct, boundary adversary whose occurrences sit on the first slots after each window end, blocks) x thresholds {epsilon, 2*epsilon, 0, .1, .5, 1, random}; checked at every prefix up to 400, around every window end up to 4000 and at geometric prefixes beyond. Oracle: reference Manku-Motwani lossy counter + exact counts: n(), add's return value, query(0) == reference table, no miss (true >= s*n and > eps*n), no intruder (true < (s-eps)*n), table size <= width*(H(ceil(n/width))+1). Non-trivial: the stream crosses >= 2 window ends and an element was pruned and later re-added. Distinct = (width, stream). evaluations = cases + prefixes checked.");
     ctx.assume("float guard band 1e-9*n on the s*n, epsilon*n and (s-epsilon)*n comparisons");
     ctx.run_regressions(&[&C09]);
     let t = ctx.tier;
